@@ -20,6 +20,8 @@ FLAVOURS = {
     # the shipped default: no contract macros
     "off-asan": {"cxx": "g++", "flags": SAN, "run_scale": 0.35},
     "chk-O0": {"cxx": "g++", "flags": ["-O0", "-DTETL_ENABLE_CONTRACT_CHECKS=1"], "run_scale": 0.5},
+    # plain binary for the valgrind/memcheck pass: the arena is handed to memcheck as undefined before each construction
+    "vg-O1": {"cxx": "g++", "flags": ["-O1", "-g1", "-DSIM_VALGRIND=1", "-DTETL_ENABLE_CONTRACT_CHECKS=1"], "run_scale": 0.0},
 }
 
 COMMON_ASSUME = [
@@ -114,7 +116,8 @@ PROPS = {
                 "tripwire armed; non-trivial and distinct as for C01",
         "assumptions": COMMON_ASSUME + ["sanitizer coverage is that of g++ 12 ASan/UBSan; intra-object overflow is only seen through state divergence"],
         "quick": {"flavours": ["chk-asan", "off-asan"], "runs": 200000, "max_seconds": 40},
-        "thorough": {"flavours": ["chk-asan", "off-asan", "chk-O2", "chk-O0"], "runs": 6000000, "max_seconds": 240},
+        "thorough": {"flavours": ["chk-asan", "off-asan", "chk-O2", "chk-O0"], "runs": 6000000, "max_seconds": 240,
+                     "valgrind_runs": 600},
     },
     "C03": {
         "families": ["vec", "set", "ovx", "fn"],
